@@ -350,6 +350,47 @@ theorem usage_facts {T : Table} (hwf : WF T) {named : List Bool} {funcs : List F
     simp only [TypeInfo.get, Marked] at this
     exact this
 
+/-- The assumption about wit-parser's `LiveTypes` (checked per function by the monitor, class
+`live-assumption`): the lists are the `Refers` closure of the parameters / of the result. -/
+def LiveOK (T : Table) (fn : Func) : Prop :=
+  (∀ a, a ∈ fn.paramLive ↔ ∃ p ∈ fn.params, Refers T p (.id a)) ∧
+  (∀ a, a ∈ fn.resultLive ↔ ∃ r, fn.result = some r ∧ Refers T r (.id a))
+
+/-- `borrowed` / `owned` declaratively: a *named* type is `borrowed` iff it is referred to
+(transitively) by a parameter of an imported function, `owned` iff by a parameter of an exported
+function or by any result. -/
+theorem usage_facts_declarative {T : Table} (hwf : WF T) {named : List Bool} {funcs : List Func}
+    {infos : List TypeInfo} (h : analyze T named funcs = some infos)
+    (hlive : ∀ fn ∈ funcs, LiveOK T fn) {a : Nat} (ha : a < T.length) :
+    ((∃ i, infos[a]? = some i ∧ i.borrowed = true) ↔
+      named.getD a false = true ∧
+        ∃ fn ∈ funcs, fn.isImport = true ∧ ∃ p ∈ fn.params, Refers T p (.id a)) ∧
+    ((∃ i, infos[a]? = some i ∧ i.owned = true) ↔
+      named.getD a false = true ∧
+        ∃ fn ∈ funcs, (fn.isImport = false ∧ ∃ p ∈ fn.params, Refers T p (.id a)) ∨
+          ∃ r, fn.result = some r ∧ Refers T r (.id a)) := by
+  obtain ⟨hb, ho, _⟩ := usage_facts hwf h ha
+  constructor
+  · rw [hb]
+    constructor
+    · rintro ⟨hn, fn, hfn, hi, hm⟩
+      exact ⟨hn, fn, hfn, hi, ((hlive fn hfn).1 a).mp hm⟩
+    · rintro ⟨hn, fn, hfn, hi, hm⟩
+      exact ⟨hn, fn, hfn, hi, ((hlive fn hfn).1 a).mpr hm⟩
+  · rw [ho]
+    constructor
+    · rintro ⟨hn, fn, hfn, hm⟩
+      refine ⟨hn, fn, hfn, ?_⟩
+      rcases hm with ⟨hi, hm⟩ | hm
+      · exact Or.inl ⟨hi, ((hlive fn hfn).1 a).mp hm⟩
+      · exact Or.inr (((hlive fn hfn).2 a).mp hm)
+    · rintro ⟨hn, fn, hfn, hm⟩
+      refine ⟨hn, fn, hfn, ?_⟩
+      rcases hm with ⟨hi, hm⟩ | hm
+      · exact Or.inl ⟨hi, ((hlive fn hfn).1 a).mpr hm⟩
+      · exact Or.inr (((hlive fn hfn).2 a).mpr hm)
+
+
 /-! ## 6. The `error` fact: full statement, its refutation, and the partial theorem -/
 
 /-- FULL statement of the `error` fact (alias-transparent, as the rest of C28 treats aliases):
@@ -457,6 +498,20 @@ example : (analyzeTypes exT)[10]? =
     some { hasList := true, hasTuple := true, hasResource := true, hasOwnHandle := true } := by decide
 example : HasNode exT (listNode exT) (.id 10) :=
   ⟨.id 9, .step 10 _ (.id 9) _ rfl (by decide) (.refl _), by decide⟩
+
+
+-- usage facts: `import f: func(p: #10) -> #8` marks the named types it refers to
+def exNamed : List Bool := [true, true, true, true, true, false, false, false, true, false, false]
+def exFuncs : List Func :=
+  [{ isImport := true, params := [.id 10], result := some (.id 8),
+     paramLive := [9, 3, 5, 10], resultLive := [0, 8] }]
+example : (analyze exT exNamed exFuncs).map (fun l => l.map fun i => (i.borrowed, i.owned)) =
+    some [(false, true), (false, false), (false, false), (true, false), (false, false), (false, false),
+      (false, false), (false, false), (false, true), (false, false), (false, false)] := by decide
+-- info_is_union: #1 is never used by a function but is equal to #0 and #8, so it becomes `owned`
+example : ((analyze exT exNamed exFuncs).bind fun infos =>
+      (collectEqualTypes exT { typeInfo := infos } (List.range 11) (fun _ => true) (List.range 11)).bind
+        fun s => (s.get 1).map fun i => (i.borrowed, i.owned)) = some (false, true) := by decide
 
 
 end Witverif.Props.C28
